@@ -19,8 +19,9 @@ COQ_TARGETS = ["theories/Model/FormatsRun.vo"]
 
 # clauses of the property not covered by a theorem (see DESIGN / final report)
 PARTIAL = [
-    "JSON format, gzip/bz2 compression, suffix registry (get_format_suffixes / PARSERS / FORMATTERS), load_* / write "
-    "plumbing: library code, correspondence only",
+    "JSON format, gzip/bz2 compression, the PARSERS / FORMATTERS registries and the load_* / write plumbing: library code, "
+    "correspondence only (get_format_suffixes itself is modelled and proved for every dotted stem; pathlib's "
+    "name/suffix/suffixes are re-modelled in Lib/Chars.v; .zip is only exercised through get_format_suffixes)",
     "textwrap.wrap is abstracted as an arbitrary cutting of the sequence into non-empty lines (checked on every case); "
     "the FASTA theorems hold for every such cutting",
     "parser agreement is proved on every text the writer can produce from representable records (any line cutting); "
@@ -107,6 +108,61 @@ LENS_BIG = [59, 60, 61, 119, 120, 121]
 WIDTHS = [1, 2, 3, 4, 5, 7, 10, 60, None, None]
 
 
+DOTTED_STEMS = ["ENSG00000012048.23", "a.b.c", "x.1", "v1.0.2", "my.gz", "seq.2024-07.final_v2"]
+SUFFIX_FORMATS = ["fasta", "fa", "phylip", "paml", "gde", "json", "gb", "nex", "tsv", "txt", "FASTA", "Phylip"]
+SUFFIX_COMPRESSIONS = ["", "gz", "bz2", "zip", "GZ"]
+
+
+def oracle_suffixes(name):
+    """(format, compression) of a legal file name, written from the documentation: the format is the last suffix when the
+    name is not compressed and the second-to-last when the last one is gz / bz2 / zip; the compression is that last one or
+    None; suffixes are reported lower-case.  None = the oracle does not speak about this name (hidden file, empty
+    component, no stem)"""
+    base = name.rsplit("/", 1)[-1]
+    comps = base.split(".")
+    if len(comps) < 2 or not all(comps):
+        return None
+    last = comps[-1].lower()
+    if last in ("gz", "bz2", "zip"):
+        return [comps[-2].lower() if len(comps) >= 3 else None, last]
+    return [last, None]
+
+
+def suffix_cases(tier):
+    """deterministic grid: stems (plain and with periods, with directories containing periods) x formats x compressions,
+    plus edge names (model vs implementation only)"""
+    out = []
+    stems = ["x", "seqs"] + DOTTED_STEMS + ["dir.v2/x", "dir.v2/a.b.c", "/tmp/t.d/ENSG0001.5"]
+    for st in stems:
+        for f in SUFFIX_FORMATS:
+            for cp in SUFFIX_COMPRESSIONS:
+                out.append(dict(kind="suffixes", name=st + "." + f + ("." + cp if cp else ""), block="suffix-grid"))
+    for st in stems:
+        for cp in SUFFIX_COMPRESSIONS[1:]:
+            out.append(dict(kind="suffixes", name=st + "." + cp, block="suffix-grid"))
+    for nm in ["noext", ".fasta", ".hidden.fasta", "x.", "x..gde", "a..b.fasta.gz", "x.fasta.", ".gz", "x.tar.gz", "a.b/c",
+               "a.b/.c", "x.fasta.gz.bz2", "x.gz.fasta", "x.gz.gz"]:
+        out.append(dict(kind="suffixes", name=nm, block="suffix-edge"))
+    if tier == "quick":
+        out = out[::3] + [c for c in out if c["block"] == "suffix-edge"]
+    return out
+
+
+def dotted_round_cases(rng, tier):
+    """every writable format incl. json x {plain, .gz, .bz2} x file stems with and without periods, on a plainly
+    representable alignment: an exception on write / load of such a legal name is a violation"""
+    out = []
+    stems = DOTTED_STEMS if tier != "quick" else DOTTED_STEMS[:4]
+    for fmt in FMTS + ["json"]:
+        for suffix in ("", ".gz", ".bz2"):
+            for st in stems + ["plain"]:
+                L = rng.choice([4, 7, 12])
+                recs = [["s1", rand_seq(rng, "dna", L, gaps=False)], ["s2", rand_seq(rng, "dna", L, gaps=False)]]
+                out.append(dict(kind="round", fmt=fmt, w=rng.choice([None, 5]), recs=recs, moltype="dna", aligned=True,
+                                suffix=suffix, new_type=False, stem=st, block="dotted-stem"))
+    return out
+
+
 def rand_round(rng, problem_rate=0.12):
     fmt = rng.choice(FMTS + FMTS + ["json"])      # json: library serialisation, oracle only (no model)
     moltype = rng.choice(["dna", "dna", "rna", "protein"])
@@ -145,8 +201,9 @@ def rand_round(rng, problem_rate=0.12):
             s = s.lower()
         recs.append([n, s])
     suffix = rng.choice(["", "", "", ".gz", ".bz2"])
+    stem = rng.choice(DOTTED_STEMS) if rng.random() < 0.3 else "x"
     return dict(kind="round", fmt=fmt, w=w, recs=recs, moltype=moltype, aligned=aligned, suffix=suffix,
-                new_type=(not aligned and rng.random() < 0.25), block="random")
+                new_type=(not aligned and rng.random() < 0.25), stem=stem, block="random")
 
 
 def corpus_cases():
@@ -671,8 +728,8 @@ def representable(c, made):
         return all(printable_ascii(n) for n in names)
     if not all(printable_ascii(n) and n == n.strip() for n in names):
         return False
-    if any(len(s) == 0 for s in seqs):
-        return False
+    if fmt != "fasta" and any(len(s) == 0 for s in seqs):
+        return False          # (json returned above; FASTA carries a zero-length sequence as a label without residues)
     if fmt in ("phylip", "paml") and len({len(s) for s in seqs}) != 1:
         return False
     if fmt == "phylip" and (len({n[:9] for n in names}) != len(names) or any(n[:9] != n[:9].strip() for n in names)):
@@ -717,6 +774,8 @@ def shape_of(c, made):
         return "name-inner-blank"
     if fmt == "phylip" and any(len(n) > 9 for n in names):
         return "name-10plus"
+    if "." in c.get("stem", "x"):
+        return "dotted-stem"
     if c.get("suffix"):
         return "compressed"
     return "plain"
@@ -725,20 +784,25 @@ def shape_of(c, made):
 def wf_fasta_text(t, lch=">"):
     """oracle's own definition of a well-formed FASTA (GDE) text, written from the format description: returns the
     records a reader must produce (label without surrounding blanks, residues without white space) or None.
+    Lines end with \\n, \\r\\n or \\r (the three text-file conventions; no \\r may survive in a label or a sequence).
     Label lines start with the label character, the label is any printable ASCII / TAB text (blanks at either end
     and '>' inside allowed); below a label come lines of upper-case residues (letters - ? * .) with blanks / tabs
-    anywhere, possibly empty, at least one non-empty; no line starts with '#' and only label lines with '>' / '%'."""
-    if not t or any(ord(ch) > 126 or (ord(ch) < 32 and ch not in "\n\t") for ch in t):
+    anywhere, possibly empty; a FASTA record may have NO residues at all (zero-length sequence: it must be returned
+    with an empty sequence); no line starts with '#' and only label lines with '>' / '%'."""
+    if not t:
+        return None
+    t = t.replace("\r\n", "\n").replace("\r", "\n")
+    if any(ord(ch) > 126 or (ord(ch) < 32 and ch not in "\n\t") for ch in t):
         return None
     lines = t.split("\n")
     if lines[-1] == "":
         lines = lines[:-1]
     else:
-        return None          # the theorems speak about newline-terminated text
+        return None          # the theorems speak about terminated text
     recs = []
     for ln in lines:
         if ln.startswith(lch):
-            if recs and not any(recs[-1][1]):
+            if recs and not any(recs[-1][1]) and lch != ">":
                 return None
             recs.append([ln[1:].strip(), []])
         else:
@@ -749,9 +813,77 @@ def wf_fasta_text(t, lch=">"):
             if not all(ch.isupper() or ch in "-?*. \t" for ch in ln):
                 return None
             recs[-1][1].append(ln)
-    if not recs or not any(recs[-1][1]):
+    if not recs or (not any(recs[-1][1]) and lch != ">"):
         return None
     return [[n, "".join("".join(p).split())] for n, p in recs]
+
+
+def text_shape(text, exp):
+    """coarse class of a well-formed text for the violation key (first applicable)"""
+    if "\r" in text and "\n" not in text:
+        return "cr-only-line-ends"
+    if "\r" in text:
+        return "crlf"
+    if any(q == "" for _, q in exp):
+        return "empty-record"
+    if any(">" in n for n, _ in exp):
+        return "label-has-gt"
+    return "plain"
+
+
+def eol_variant(rng, t, how):
+    if how == "crlf":
+        return t.replace("\n", "\r\n")
+    if how == "cr":
+        return t.replace("\n", "\r")
+    if how == "mixed":
+        return "".join((rng.choice(["\n", "\r\n"]) if ch == "\n" else ch) for ch in t)
+    if how == "last-cr":           # the last line ends with a lone \r
+        return t[:-1] + "\r" if t.endswith("\n") else t
+    return t
+
+
+def eol_empty_parse_cases(rng, n):
+    """FASTA texts with an empty record in first / middle / last position and with CRLF / CR / mixed line ends, for
+    the bytes parser (what load_*_seqs uses) and the strict / non-strict line parsers"""
+    out = []
+    fixed = [">a\n>b\nAC\n>c\nGT\n", ">a\nAC\n>b\n>c\nGT\n", ">a\nAC\n>b\nGT\n>c\n", ">a\nAC\n>b\n\n>c\nGT\n", ">a\n",
+             ">a\r\nAC\r\nGT\r\n>b\r\nTT\r\n", ">a \r\nAC\r\n\r\n>b\r\nT T\r\n", ">a\nAC\r\n>b\nTT\r", ">a\rAC\r>b\rTT\r",
+             ">a\r\n>b\r\nAC\r\n"]
+    texts = list(fixed)
+    for _ in range(n):
+        recs = wf_recs(rng)
+        r = rng.random()
+        if r < 0.45:
+            k = rng.randrange(len(recs) + 1)
+            recs = recs[:k] + [[("e%d" % k), ""]] + recs[k:]
+        t = py_fasta_text(recs, rng.choice([1, 2, 3, 60])) if rng.random() < 0.6 else decorate_text(rng, [x for x in recs if x[1]] or [["z", "A"]], 3)
+        texts.append(eol_variant(rng, t, rng.choice(["lf", "crlf", "crlf", "mixed", "last-cr", "cr"])))
+    for t in texts:
+        for which in (0, 1, 2):
+            out.append(dict(kind="parse", which=which, text=t, wf="fasta", block="eol-empty"))
+    return out
+
+
+def empty_seq_round_cases(rng):
+    """collections holding a ZERO-LENGTH sequence (first / middle / last / two of them), built directly (old and new
+    type) and by degap() of an alignment with an all-gap row, written as .fasta / .fa.gz / .fasta.bz2 / .json /
+    .json.gz and loaded with load_unaligned_seqs: names, order and the empty sequences must survive"""
+    out = []
+    layouts = {"first": ["", "ACT", "AT"], "middle": ["ACT", "", "AT"], "last": ["ACT", "AT", ""], "two": ["", "ACGT", ""]}
+    for fmt, ext, suffix in (("fasta", "fasta", ""), ("fasta", "fa", ".gz"), ("fasta", "fasta", ".bz2"), ("json", "json", ""),
+                             ("json", "json", ".gz")):
+        for pos, seqs in layouts.items():
+            recs = [[n, q] for n, q in zip(["s1", "s2", "s3"], seqs)]
+            for route in ("old", "new", "degap"):
+                c = dict(kind="round", fmt=fmt, ext=ext, w=rng.choice([None, 2]), recs=recs, moltype="dna", aligned=False,
+                         suffix=suffix, new_type=(route == "new"), stem=rng.choice(["x", "a.b"]), block="empty-seq")
+                if route == "degap":
+                    L = max(len(q) for q in seqs)
+                    c["recs"] = [[n, q + "-" * (L - len(q))] for n, q in recs]
+                    c["degap"] = True
+                out.append(c)
+    return out
 
 
 def decorate_text(rng, recs, w, lch=">"):
@@ -868,6 +1000,8 @@ def build_model_cases(cases, impl, variant=0, gb_variant=0):
             mc.append((i, "split", f"CSplit {zstr(c['text'])}"))
         elif k == "iter":
             mc.append((i, "iter", f"CIter {zlit(c['n'])} {zstr(c['text'])}"))
+        elif k == "suffixes":
+            mc.append((i, "suffixes", f"CSuffixes {zstr(c['name'])}"))
         elif k == "gb":
             if c["which"] in (0, 1) and modelable(c["text"]):
                 mc.append((i, "gb", f"CGb {0 if c['which'] == 0 else 1 + gb_variant} {zstr(c['text'])}"))
@@ -906,6 +1040,12 @@ def check_round(rep, c, r, stats):
     shape = shape_of(c, made)
     fmt = c["fmt"]
     exp = expected_round(c, made)
+    want_gfs = [c.get("ext", fmt), c.get("suffix", "").lstrip(".") or None]
+    if "gfs" in r and r["gfs"] != want_gfs:
+        rep.violation(f"format-suffixes:{'dotted' if '.' in c.get('stem', 'x') else 'plain'}-stem",
+                      dict(case=small(c), expected_by_spec=want_gfs, observed_impl=r["gfs"], model_output=None,
+                           broken="get_format_suffixes(path) is not (format, compression) of the file name"))
+        return True
     if r.get("routes_differ"):
         rep.violation(f"writer-container:{fmt}", dict(case=small(c), expected_by_spec="identical text from every container type",
                                                       observed_impl=r, model_output=None,
@@ -1065,6 +1205,10 @@ def run(tier: str, seed: int) -> int:
     cases += compressed_iter_cases(rng, 8 * mult)
     cases += stream_cases(rng, 8 * mult)
     cases += big_cases(tier)
+    cases += empty_seq_round_cases(rng)
+    cases += eol_empty_parse_cases(rng, 12 * mult)
+    cases += dotted_round_cases(rng, tier)
+    cases += suffix_cases(tier)
     cases.append(dict(kind="registry", block="registry"))
 
     impl = core.run_impl_sharded("c06_impl.py", cases)
@@ -1155,6 +1299,21 @@ def run(tier: str, seed: int) -> int:
                 m = from_val_recs(model[(i, "parse")])
                 if m is not None and m != res_c:
                     dis(f"parse:{c['which']}", c, res_c, m)
+        elif k == "suffixes":
+            res = r["result"]
+            want = oracle_suffixes(c["name"])
+            if r.get("routes_differ") or (want is not None and res != want):
+                nvio += 1
+                comps = c["name"].rsplit("/", 1)[-1].split(".")
+                cls = ("dotted" if len(comps) > (3 if comps[-1].lower() in ("gz", "bz2", "zip") else 2) else "plain") + "-stem"
+                rep.violation(f"format-suffixes:{cls}", dict(case=small(c), expected_by_spec=want, observed_impl=r, model_output=None,
+                                                             broken="get_format_suffixes(name) is not (format, compression) of the file "
+                                                                    "name (str and Path must agree)"))
+                continue
+            if want is not None and want[0] is not None and len(c["name"].rsplit("/", 1)[-1].split(".")) > 2:
+                nontrivial.add(json.dumps(["suffixes", c["name"]]))
+            if (i, "suffixes") in model and model[(i, "suffixes")] != res:
+                dis("suffixes", c, res, model[(i, "suffixes")])
         elif k in ("gb", "gbstream"):
             res = r["result"]
             res_c = {"exc": res["exc"]} if isinstance(res, dict) else res
@@ -1241,10 +1400,15 @@ def run(tier: str, seed: int) -> int:
         exp = wf_fasta_text(text, lch)
         if exp is None:
             continue
-        bad = {w: v for w, v in by.items() if v != exp}
+        has_empty = any(q == "" for _, q in exp)
+        # the strict parser is documented to raise RecordError for a record without residues: an explicit refusal
+        bad = {w: v for w, v in by.items() if v != exp and not (has_empty and w in (0, 3) and v == {"exc": 9})}
         if bad:
             nvio += 1
-            shape = "label-has-gt" if any(">" in n for n, _ in exp) else "plain"
+            # the one known deviation with empty records: the non-strict line parser drops them and nothing else differs
+            drop = [r_ for r_ in exp if r_[1] != ""]
+            only_drop = has_empty and all(w == 1 and v == drop for w, v in bad.items())
+            shape = "empty-record" if only_drop else text_shape(text, exp)
             rep.violation(f"parsers-disagree:{wf}:{shape}",
                           dict(case=dict(kind="parse", which=sorted(bad)[0], text=text, wf=wf, block="agree"),
                                expected_by_spec=exp, observed_impl={str(w): v for w, v in by.items()}, model_output=None,
@@ -1252,6 +1416,13 @@ def run(tier: str, seed: int) -> int:
                                       "well-formed text (which: 0 strict, 1 non-strict, 2 bytes, 3 gde strict, 4 gde non-strict)"))
 
     matrix, never = coverage_matrix(cases, impl)
+    name_matrix = {}
+    for c, r in zip(cases, impl):
+        if c["kind"] == "round" and isinstance(r, dict) and ("loaded" in r or "err" in r):
+            key = f"write+load({c['fmt']})|{c.get('suffix') or 'plain'}|{'dotted' if '.' in c.get('stem', 'x') else 'plain'}-stem"
+            name_matrix[key] = name_matrix.get(key, 0) + 1
+    never_names = sorted(f"write+load({f})|{sx}|{st}-stem" for f in FMTS + ["json"] for sx in ("plain", ".gz", ".bz2")
+                         for st in ("dotted", "plain") if f"write+load({f})|{sx}|{st}-stem" not in name_matrix)
 
     samples = []
     for c, r in list(zip(cases, impl))[:400]:
@@ -1268,7 +1439,8 @@ def run(tier: str, seed: int) -> int:
              "chunk size on one text); non-trivial = round case whose loaded records contain a sequence longer than the block "
              "width, parse case yielding >= 1 record, iter case with >= 2 lines and chunk size < len(text)",
         samples=samples, input_distribution=dict(cases=len(cases), model_cases=len(mc), by_kind=dist, matrix=matrix,
-                                                 never_produced=never, **stats),
+                                                 never_produced=never, file_name_matrix=dict(sorted(name_matrix.items())),
+                                                 file_name_cells_never_produced=never_names, **stats),
         partial=PARTIAL, exhaustive=False, registered_formats=registered_formats(registry),
         json_clause="JSON: C06 keeps write / load_*_seqs correspondence (old and new collection types, plain and compressed); "
                     "the to_json / deserialise round trip of collections and alignments is the subject of property C10", translator_tie=f"fasta bytes-parser split variant {variant}; genbank record-strip variant {gbv}", model_impl_disagreements=len(disagreements), spec_violations=nvio,
@@ -1312,6 +1484,10 @@ def replay(path: str) -> int:
 
         rr = _R()
         bad = check_round(rr, c, r, dict(explicit_refusals=0, outside_spec=0)) if "made" in r else False
+    elif c["kind"] == "suffixes":
+        exp = oracle_suffixes(c["name"])
+        print("oracle:", exp)
+        bad = bool(r.get("routes_differ")) or (exp is not None and r.get("result") != exp)
     elif c["kind"] in ("gb", "gbstream"):
         exp = wf_gb_records(c["text"]) if c.get("wf_gb") else None
         res = r.get("result")
